@@ -189,7 +189,8 @@ def periods(W, p):
     v = W.int("v", 0, 10 ** 6)
     W.prove(W.eq(_secs(W, tk.normalize_period(v)), v), "period-spellings")
     W.prove(W.eq(_secs(W, tk.normalize_period(W.td(v))), v), "period-spellings")
-    for unit, mult in (("s", 1), ("m", 60), ("h", 3600), ("d", 86400)):  # d as the shipped configuration files document it
+    # d as the shipped configuration files document it; D and W are numpy's own unit names, accepted by the pinned tree
+    for unit, mult in (("s", 1), ("m", 60), ("h", 3600), ("d", 86400), ("D", 86400), ("W", 7 * 86400)):
         W.prove(W.eq(_secs(W, tk.normalize_period([v, unit])), v * mult), "period-spellings", dict(unit=unit))
         W.prove(W.eq(_secs(W, tk.normalize_period((v, unit))), v * mult), "period-spellings", dict(unit=unit, spelled="tuple (the TimeDelta alias names it)"))
     # datetime.timedelta cannot hold a symbolic value: concrete family
@@ -199,7 +200,7 @@ def periods(W, p):
     for text, sec in (("PT09M", 540), ("PT007H05S", 7 * 3600 + 5), ("PT0H0M1S", 1), ("PT1H30S", 3630), ("PT100M", 6000), ("PT25H61M61S", 25 * 3600 + 61 * 60 + 61), ("PT0S", 0), ("PT00S", 0)):
         W.prove(W.eq(_secs(W, tk.normalize_period(text)), sec), "period-spellings", dict(text=text))
     # [v, unit] with a bad unit or non-int value is rejected
-    for bad in ([v, "x"], [v, "seconds"], ["3", "s"], [v], [v, "s", "s"]):
+    for bad in ([v, "x"], [v, "seconds"], ["3", "s"], [v], [v, "s", "s"], [v, ["m"]], [v, {"m": 1}], [v, None]):
         try:
             tk.normalize_period(bad)
             ok = False
